@@ -721,6 +721,12 @@ func (c *Client) receipts(ctx context.Context, url string, bm blockmap, start, l
 		}
 		b.Header.Hash.Write(resps[i].Result[0].BlockHash)
 		for j := range resps[i].Result {
+			if n := uint64(resps[i].Result[j].BlockNum); n != blockNum {
+				const tag = "eth_getBlockReceipts receipts of different blocks in one response. num=%d first=%d"
+				return fmt.Errorf(tag, n, blockNum)
+			}
+		}
+		for j := range resps[i].Result {
 			tx := b.Tx(uint64(resps[i].Result[j].TxIdx))
 			tx.PrecompHash.Write(resps[i].Result[j].TxHash)
 			tx.Type.Write(byte(resps[i].Result[j].TxType))
